@@ -12,6 +12,11 @@ CHECKS = {
    technique="proptest-generated configurations, producer step lists, writer pacing (gate) and fault scripts (failing write / flush indices) against a scripted underlying writer; invariants over its call log",
    text="Queue capacity 1-8, lossy and non-lossy, 1-4 producer threads, steps {offer lines, stall the underlying writer, release it, settle, drop the guard at any point (also with a backlog, also with producers offering afterwards)} and a generated subset of failing write and flush attempts. Checked on the scripted writer's log: every write is one whole offered buffer, none twice, per-producer order kept; lossy: written + dropped_lines() == offered; non-lossy: nothing dropped and every accepted line written; a failed write loses only that line; after the guard drop returns every line accepted before it was attempted, a flush followed, the writer was dropped exactly once, nothing touched it afterwards and the drop did not run into its shutdown timeout.",
    note="Real threads without schedule control: only schedule-independent invariants; a case that cannot progress in 10 s is inconclusive (exit 2). The gate is open while the guard is dropped (stalls beyond the documented 100 ms / 1 s timeouts are outside the property). Runs with 8 shards to keep timing benign. Found and fixed F11."),
+ "C16": dict(
+   category="exploration", design="DESIGN.md §4 C16",
+   technique="proptest-generated configurations and clock-step/write histories under an injected clock; oracle = (current file, next boundary) reference model with an own calendar conversion, directory contents compared with the model after every write",
+   text="Rotation minutely/hourly/daily/never x optional prefix x optional suffix x optional file limit 1-4 x start instant 1971..9998 (biased to the last minute of month and year ends, Feb 28/29, Y2K) x up to 14 (thorough 30) steps: a clock step {same instant, small and large forward steps, exactly to the next boundary -1/0/+1 s, 1-5 periods ahead, 1-7200 s backwards} then a write of a unique payload through Write, or through MakeWriter from 2-6 threads released at one instant. After every write the directory's files and their bytes must equal the model: every payload whole, once, in order, in the file named for its period (concurrent writes at a rotation instant: old or new file), exactly one new file per boundary crossed, none for standing still or going back, and with a limit at most that many log files with the oldest removed first.",
+   note="The clock is the cfg-guarded override tracing_appender::rolling::verif_clock. Pruning order is judged by the birth times the code itself reads; equal birth times are tolerated. Threads are real threads released by a barrier (no schedule control): only schedule-independent outcomes are asserted."),
  "C13": dict(
    category="exploration", design="DESIGN.md §4 C13",
    technique="proptest-generated (formatter, options, writer expression, multi-thread workload) cases; oracle = denotation of the writer expression over recording sinks + per-record predicates on the bytes of each individual write call",
